@@ -117,6 +117,58 @@ bool sparseWithMoveCount(vf::Rng& r, int want, GenPos& out) {
     return false;
 }
 
+bool endgameClass(vf::Rng& r, GenPos& out) {
+    // strong side first (upper case), weak side after 'v'
+    static const char* classes[] = {"KRPvKR", "KRPvKR", "KQvKP", "KRvKP", "KPvK", "KBPvK", "KNPvK", "KBPvKB", "KBPvKN", "KRPPvKR", "KQvKRP", "KRBvKR", "KRNvKR",
+                                    "KBNvK", "KQvKR", "KQPvKQ", "KBBvKN", "KNNvKP", "KRvKB", "KRvKN", "KPPvKP", "KQvKNN", "KRPvKB", "KBPPvKB", "KRPvKRP", "KQvKRR"};
+    const std::string cls = classes[r.below(sizeof(classes) / sizeof(classes[0]))];
+    const bool flip = r.chance(0.5);
+    for (int tries = 0; tries < 200; tries++) {
+        char board[64];
+        memset(board, 0, sizeof board);
+        bool weak = false, ok = true;
+        for (char c : cls) {
+            if (c == 'v') { weak = true; continue; }
+            bool white = weak == flip; // strong side is white unless flipped
+            char pc = white ? c : (char)tolower(c);
+            bool placed = false;
+            for (int t = 0; t < 100 && !placed; t++) {
+                int sq = (int)r.below(64);
+                if (board[sq]) continue;
+                int y = sq >> 3;
+                if (c == 'P' && (y == 0 || y == 7)) continue;
+                board[sq] = pc;
+                placed = true;
+            }
+            if (!placed) ok = false;
+        }
+        if (!ok) continue;
+        std::string fen;
+        for (int y = 7; y >= 0; y--) {
+            int empty = 0;
+            for (int x = 0; x < 8; x++) {
+                char c = board[y * 8 + x];
+                if (!c) { empty++; continue; }
+                if (empty) { fen += (char)('0' + empty); empty = 0; }
+                fen += c;
+            }
+            if (empty) fen += (char)('0' + empty);
+            if (y) fen += '/';
+        }
+        int hmc = r.chance(0.2) ? (int)r.range(30, 80) : 0;
+        fen += r.chance(0.5) ? " w" : " b";
+        fen += " - - " + std::to_string(hmc) + " " + std::to_string(1 + hmc / 2 + (int)r.below(40));
+        try {
+            Position p = TextIO::readFEN(fen);
+            out.positionCmd = "position fen " + fen;
+            finish(out, p);
+            return true;
+        } catch (const ChessParseError&) {
+        }
+    }
+    return false;
+}
+
 void anyPosition(vf::Rng& r, GenPos& out) {
     int k = (int)r.below(100);
     if (k < 45) { randomGame(r, (int)r.range(0, 80), r.chance(0.3), out); return; }
